@@ -660,8 +660,16 @@ def SUMPRODUCT(
             raise xlerrors.NaExcelError(
                 "Excel Errors are present in the sumproduct items.")
 
-    sumproduct = pd.concat(arrays, axis=1)
-    return sumproduct.prod(axis=1).sum()
+    # Multiply element by element; anything that is not a number (blank
+    # cells, text) counts as zero.
+    columns = [
+        [
+            item.value if isinstance(item, func_xltypes.Number) else 0
+            for item in xl.flatten(array)
+        ]
+        for array in arrays
+    ]
+    return sum(math.prod(items) for items in zip(*columns))
 
 
 @xl.register()
